@@ -677,6 +677,41 @@ func largeBody(sizes []int) func(c *mc.Ctx, item int) mc.Verdict {
 	}
 }
 
+// extremeRangeBody: ranges that touch or span the ends of the code space of
+// every width: the full range <00..> <ff..>, the full range minus one code at
+// either end, single codes at both ends, for every range-mapping kind and for
+// code-space ranges.
+func extremeRangeBody(c *mc.Ctx, item int) mc.Verdict {
+	width := 1 + item%4
+	shape := (item / 4) % 5
+	kind := []cm.Kind{cm.CidRange, cm.BfRange, cm.NotdefRange, cm.CodeSpaceRange}[item/20]
+	lo, hi := bytes.Repeat([]byte{0x00}, width), bytes.Repeat([]byte{0xff}, width)
+	switch shape {
+	case 1:
+		lo[width-1] = 1
+	case 2:
+		hi[width-1] = 0xfe
+	case 3:
+		hi = append([]byte{}, lo...)
+	case 4:
+		lo = append([]byte{}, hi...)
+	}
+	m := baseCMap(0)
+	if kind != cm.CodeSpaceRange {
+		m.Blocks = append(m.Blocks, cm.Block{Kind: cm.CodeSpaceRange, Declared: -1, Entries: []cm.Entry{{Lo: cm.Str(bytes.Repeat([]byte{0}, width)...), Hi: cm.Str(bytes.Repeat([]byte{0xff}, width)...)}}})
+	}
+	e := cm.Entry{Lo: cm.Str(lo...), Hi: cm.Str(hi...)}
+	switch kind {
+	case cm.CidRange, cm.NotdefRange:
+		e.Dst = cm.Int(1)
+	case cm.BfRange:
+		e.Dst = cm.Str(0, 0x41)
+	}
+	m.Blocks = append(m.Blocks, cm.Block{Kind: kind, Declared: -1, Entries: []cm.Entry{e}})
+	f := cm.File{CMaps: []cm.CMap{m}}
+	return run(c, f, cm.Write(f, cm.Layout{}), fmt.Sprintf("one %v entry <%x> <%x>", kind, lo, hi), "")
+}
+
 // preambleBody: a standard-form CMap behind a long licence header (comment
 // lines, DSC lines or blank lines): what comes before `begincmap` may be of
 // any length.
@@ -899,6 +934,14 @@ func main() {
 				Budget:   budget,
 				Rule:     fmt.Sprintf("item = (kind of 7, ordered pair or triple of distinct source codes from %x written in that file order): a code and the same code followed by 1..3 zero bytes, their byte-wise neighbours, codes of every length; the table must come back sorted by source code (code-space ranges by length, then code); non-trivial = distinct codes", sortCodes),
 				CrashKey: func(int) string { return "C07:crash:sort-order" },
+			})
+			fams = append(fams, mc.Family{
+				Name:     "ranges-at-the-ends-of-the-code-space",
+				Items:    4 * 5 * 4,
+				Body:     extremeRangeBody,
+				Budget:   budget,
+				Rule:     "item = code width 1..4 x range {full <00..> <ff..>, full minus the first code, full minus the last code, the first code alone, the last code alone} x kind {cidrange, bfrange, notdefrange, codespacerange}: each is a valid entry and must be returned unchanged; non-trivial = all",
+				CrashKey: func(int) string { return "C07:crash:extreme-ranges" },
 			})
 			fams = append(fams, mc.Family{
 				Name:     "long-preamble",
